@@ -284,9 +284,10 @@ def anchor_files(prop):
     return []
 
 
-def harvest(prop, repo='/repo'):
+def harvest(prop, repo=None):
     """sets and returns HARVEST for this property"""
     global HARVEST
+    repo = repo or REPO
     base = json.load(open(os.path.join(VERIF, 'harness', 'const_baseline.json')))
     known = set(base.get(prop, []))
     found = set()
